@@ -34,7 +34,9 @@ META = {
         'arguments: acceptance, rewritten listing, reports of missing targets, byte image, link walk and the executed tag trace are '
         'compared with an independent model; traps set before RENUM are provoked after it.'),
     'level_note': (
-        'Trusted: harness, R-PROG. Not pinned and therefore not generated: RESUME 0 / line 0, RENUM on an empty program, a start line above every line '
+        'Trusted: harness, R-PROG. Programs may start with a line numbered 0 that is the target of GOTO/GOSUB/THEN/ELSE/ON lists/RESTORE/RUN/'
+        'LIST (and references to a missing line 0 are generated); not pinned and therefore not generated: 0 after RESUME / ERL= / RETURN / '
+        'ON ERROR GOTO as a line reference (ON ERROR GOTO 0 itself is generated and must stay 0), RENUM on an empty program, a start line above every line '
         '(either outcome accepted, program must be unchanged), references whose digits are followed by arithmetic. The line named in an '
         '"Undefined line N in M" report may be the old or the new number of the containing line (all reports of one RENUM consistently). '
         'Behaviour equivalence is only demanded when no missing target coincides with a new line number. Only one kind of event trap (KEY or TIMER) '
@@ -48,6 +50,7 @@ META = {
     'require_counters': {'any': ['renum_accepted', 'renum_rejected', 'rejected_untouched_checked', 'missing_reported_seen',
                                  'trap_error_handler_reached', 'trap_event_handler_reached', 'trap_before_range_seen',
                                  'trap_inside_range_seen', 'trap_defined_while_off_handler_reached_after_renum', 'behaviour_compared', 'image_compared',
+                                 'ref_to_line_0', 'ref_missing_line_0', 'ref_on_error_0',
                                  'ref_goto', 'ref_gosub', 'ref_then', 'ref_then_else', 'ref_on_goto', 'ref_on_gosub', 'ref_restore',
                                  'ref_run', 'ref_resume', 'ref_erl_eq', 'ref_on_error', 'ref_on_key', 'ref_on_timer']},
     'timeout': {'quick': 900, 'thorough': 7200},
@@ -157,6 +160,15 @@ def run_case(res, case, inv):
                 b2.enter(exp)
                 b2.ex(b'SAVE "IMG2"', 5000)
                 img2 = pg.read_file(b2, 'IMG2.BAS')
+            img2_dev = None
+            if mp.get(0, 0) != 0 and 0 in model.lines:
+                # recorded deviation (C13 key renum:line-entered-as-0-lists-with-extra-blank): a line typed under number 0 keeps the
+                # blank after its number; once renumbered it lists with two blanks. Exactly the literal listing or exactly this is accepted.
+                exp_dev = [(b'%d  %s' if n == 0 else b'%d %s') % (mp.get(n, n), rp.render(segs, mp)) for n, segs in prog['lines']]
+                with harness.Box(budget=5000) as b2:
+                    b2.enter(exp_dev)
+                    b2.ex(b'SAVE "IMG2"', 5000)
+                    img2_dev = pg.read_file(b2, 'IMG2.BAS')
         # ---- the renumbered program ------------------------------------------------------------------
         with harness.Box(budget=5000) as b1:
             b1.enter(text)
@@ -224,6 +236,12 @@ def run_case(res, case, inv):
                     return
                 # listing
                 exp = [b'%d %s' % (mp.get(n, n), rp.render(segs, mp)) for n, segs in prog['lines']]
+                if img2_dev is not None and listed == exp_dev:
+                    res.count('line0_blank_deviation_seen')
+                    exp, img2 = exp_dev, img2_dev
+                if listed != exp and img2_dev is not None and listed is not None and \
+                        sum(1 for g, e in zip(listed, exp_dev) if g != e) < sum(1 for g, e in zip(listed, exp) if g != e):
+                    exp = exp_dev    # diagnose against the nearer of the two accepted listings
                 if listed != exp:
                     d = [(g, e) for g, e in zip((listed or []) + [None] * len(exp), exp + [None] * len(listed or [])) if g != e][:1]
                     gn = [l.split(b' ', 1)[0] for l in (listed or [])]
@@ -359,6 +377,36 @@ def directed_cases():
         prog = {'lines': lines, 'cont': 60, 'missing': [], 'handlers': h}
         for args in ([None, None, None], [100, 20, None], [100, 40, None], [1000, None, 7], [15, 40, None]):
             cases.append({'prog': prog, 'args': args, 'mode': 'trap', 'budget': 300, 'late': True})
+    # line number 0 as a target of every kind that may name it, ON ERROR GOTO 0 next to it (not a reference), and references to a
+    # MISSING line 0 (must be kept and reported)
+    lines = [
+        L(0, b'C=C+1:PRINT "t0;";:IF C>6 THEN ', R(90)),
+        L(5, b'ON ERROR GOTO 0:PRINT "t5;";:GOSUB ', R(50)),
+        L(10, b'PRINT "t10;";:IF C<3 THEN ', R(0), b' ELSE ', R(20)),
+        L(20, b'PRINT "t20;";:RESTORE ', R(0), b':READ A$:PRINT A$;:IF C<5 THEN GOTO ', R(0)),
+        L(30, b'PRINT "t30;";:ON C-4 GOTO ', R(0), b',', R(40)),
+        L(40, b'PRINT "t40;";:IF C>5 THEN PRINT "y;"; ELSE ', R(0)),
+        L(45, b'GOTO ', R(90)),
+        L(50, b'PRINT "s50;";:RETURN'),
+        L(60, b'DATA "d60;"'),
+        L(90, b'PRINT "end;":END'),
+        L(95, b'END:GOSUB ', R(0), b':RUN ', R(0), b':ON X GOSUB ', R(0), b',', R(50), b':LIST ', R(0), b'-', R(10)),
+    ]
+    prog = {'lines': lines, 'cont': None, 'missing': [], 'handlers': {}}
+    for args in ([None, None, None], [100, None, 5], [1, None, 1], [500, 10, None], [7, 5, 1], [0, None, 10]):
+        if args[0] == 0:
+            continue
+        cases.append({'prog': prog, 'args': args, 'mode': 'run', 'budget': 300})
+    lines = [
+        L(10, b'C=C+1:PRINT "t10;";:ON ERROR GOTO 0:IF C>2 THEN ', R(40)),
+        L(20, b'PRINT "t20;";:IF C=9 THEN GOTO ', R(0), b' ELSE IF C=8 THEN ', R(0)),
+        L(30, b'PRINT "t30;";:IF C=7 THEN GOSUB ', R(0), b':RESTORE ', R(0)),
+        L(35, b'GOTO ', R(10)),
+        L(40, b'PRINT "end;":END'),
+    ]
+    prog = {'lines': lines, 'cont': None, 'missing': [0], 'handlers': {}}
+    for args in ([None, None, None], [100, 20, 1], [5, None, 5]):
+        cases.append({'prog': prog, 'args': args, 'mode': 'run', 'budget': 300})
     # one line per reference kind, RENUM of the whole program and of a tail
     lines = [
         L(10, b'C=C+1:PRINT "t1;";:GOTO ', R(30)),
